@@ -12,6 +12,21 @@ NIV = "nifly::NiVersion"
 VERSION_LOCALS = {}
 
 
+def register_locals(fn):
+    """record the locals of fn that merely cache a version expression (defined once from a pure version expression);
+    -> set of their ids"""
+    from facts import walk as _walk, is_node as _is
+    out = set()
+    assigned = set(n["l"]["id"] for n in _walk(fn.get("body") or {}) if n["k"] == "Assign" and _is(n["l"]) and n["l"]["k"] == "Ref")
+    for n in _walk(fn.get("body") or {}):
+        if n["k"] == "Decl":
+            for v in n.get("vars", []):
+                if _is(v.get("init")) and v["id"] not in assigned and pure_version_init(v["init"]):
+                    VERSION_LOCALS[(v["id"], v["name"])] = v["init"]
+                    out.add(v["id"])
+    return out
+
+
 def _acc(short):
     return {"k": "Call", "cls": NIV, "short": short, "args": [], "t": "", "loc": ""}
 
